@@ -12,6 +12,7 @@ use std::time::Duration;
 static CACHE: OnceLock<Mutex<HashMap<(u64, u64), Args>>> = OnceLock::new();
 static PANIC_LOC: Mutex<String> = Mutex::new(String::new());
 static CHILD_IDX: Mutex<usize> = Mutex::new(0);
+static TIMED_OUT: std::sync::atomic::AtomicBool = std::sync::atomic::AtomicBool::new(false);
 fn cache() -> &'static Mutex<HashMap<(u64, u64), Args>> { CACHE.get_or_init(|| Mutex::new(HashMap::new())) }
 fn key(op: &str, a: &Args) -> (u64, u64) {
     use std::hash::{Hash, Hasher};
@@ -71,7 +72,7 @@ fn guarded<T: Send + 'static>(f: impl FnOnce() -> T + Send + 'static) -> Result<
     match g.rx.recv_timeout(Duration::from_millis(watchdog_ms())) {
         Ok(Ok(b)) => Ok(*b.downcast::<T>().expect("result type")),
         Ok(Err(loc)) => Err((PANIC, loc)),
-        Err(_) => Err((TIMEOUT, String::new())),
+        Err(_) => { TIMED_OUT.store(true, std::sync::atomic::Ordering::SeqCst); Err((TIMEOUT, String::new())) }
     }
 }
 
@@ -89,7 +90,10 @@ fn run_local(op: &str, a: &Args) -> Option<Args> {
             let want = if op == "c08.column" { Some(to_usize(&a[3])) } else { None };
             let r = guarded(move || read_input(kind, &bytes, &aux).map(|cs| {
                 // dumps are produced inside the guard: accessing a malformed array may itself panic
-                match want { None => (cs.len(), None), Some(i) => (cs.len(), cs.get(i).filter(|c| max_len(&c.to_data()) <= 1_000_000).and_then(|c| c01::dump(c.as_ref()))) }
+                match want { None => (cs.len(), None), Some(i) => (cs.len(), cs.get(i).filter(|c| max_len(&c.to_data()) <= 1_000_000).and_then(|c| {
+                    // an array the implementation's own full validation rejects is reported without its (possibly absurd) tree:
+                    // [[0]] is not a dump, c01.valid.post1 answers -3, i.e. a violation
+                    if c.to_data().validate_full().is_err() { Some(vec![g(0)]) } else { c01::dump(c.as_ref()) } })) }
             }));
             match (r, want) {
                 (Ok(Ok((n, _))), None) => outcome_args(OK, n, ""),
@@ -97,6 +101,7 @@ fn run_local(op: &str, a: &Args) -> Option<Args> {
                 (Ok(Ok((_, None))), Some(_)) => skip(),
                 (Ok(Err(())), None) => outcome_args(ERR, 0, ""),
                 (Err((code, loc)), None) => outcome_args(code, 0, &loc),
+                (Err(_), Some(_)) => vec![g(0)],     // dumping / validating the returned array panicked or hung
                 (_, Some(_)) => skip(),
             }
         }
@@ -114,7 +119,8 @@ fn run_child(op: &str, a: &Args, progress: &str) -> Option<Args> {
     let mut f = std::fs::OpenOptions::new().create(true).append(true).open(progress).expect("progress");
     writeln!(f, "{}\t{}", idx, fmt_args(&out)).unwrap();
     f.flush().unwrap();
-    if is_timeout(&out) { std::process::exit(0) }    // a runaway thread is still alive: let the parent restart us
+    // after a timeout the worker thread is lost (still running): exit with code 3 and let the parent restart us
+    if TIMED_OUT.load(std::sync::atomic::Ordering::SeqCst) { std::process::exit(3) }
     Some(out)
 }
 
@@ -170,16 +176,16 @@ fn run_chunk(id: usize, jobs: &[(String, Args)], wd_ms: u64) -> Vec<Args> {
         let ndone = done.len();
         res.extend(done);
         if res.len() < jobs.len() {
-            let clean = matches!(st, Some(s) if s.success());
-            let last_timeout = ndone > 0 && is_timeout(&res[res.len() - 1]);
-            if !(clean && last_timeout) {
+            let after_timeout = matches!(st, Some(s) if s.code() == Some(3)) && ndone > 0;
+            if !after_timeout {
                 // the child died (signal / non-zero exit / killed by the parent guard) on job res.len()
                 use std::os::unix::process::ExitStatusExt;
                 let sig = st.and_then(|s| s.signal()).unwrap_or(0) as i64;
                 let code = st.and_then(|s| s.code()).unwrap_or(-1) as i64;
                 let op = &jobs[res.len()].0;
                 let o = if st.is_none() { outcome_args(TIMEOUT, 0, "") } else { vec![g(ABORT), g(0), gs(&[sig, code])] };
-                res.push(if op == "c08.column" { skip() } else { o });
+                // a dump that kills the child (validation / dump of a malformed returned array crashed) is a violation too
+                res.push(if op == "c08.column" { vec![g(0)] } else { o });
             }
         }
         let _ = std::fs::remove_file(&file); let _ = std::fs::remove_file(&prog);
